@@ -2,7 +2,7 @@
    Statements only (copied from the lemma libraries); every proof is a bare
    `exact`; see the cited files in coq/proofs for the proofs. *)
 From Coq Require Import List NArith ZArith Bool Arith Sorting.Sorted Sorting.Permutation.
-From D2P Require Import Str Err Xml TableTypes Tables Fmt Merge Collector Walk TokFacts MiscFacts ProjFacts PyVal Source SourceBase ViewFacts SourceViews.
+From D2P Require Import Str Err Xml TableTypes Tables Fmt Merge Collector Walk TokFacts MiscFacts ProjFacts PyVal Source SourceBase ViewFacts SourceViews SourceEscape.
 Import ListNotations.
 Open Scope N_scope.
 Import String.StringSyntax.
@@ -172,3 +172,11 @@ Theorem C07_source_par_run_strings :
   S_Par_run_strings (enc_par html p) = lift_strs (par_run_strings html p).
 Proof. exact src_par_run_strings. Qed.
 Print Assumptions C07_source_par_run_strings.
+
+(* DepthCollector.escape as translated from the Python source (three str.replace calls guarded by the html flag) is the model's character-wise entity escaping with html on and the identity with html off: C07_escape_no_angle / C07_escape_amp / C07_unescape speak about the source *)
+Theorem C07_source_escape :
+  forall cls (fmt : pv) (s : str),
+  S_DepthCollector_escape (VObj cls [(k_x2h, fmt)]) (VStr s)
+  = Ok (VStr (if py_truth fmt then render true (map TTxt s) else render false (map TTxt s))).
+Proof. exact src_escape. Qed.
+Print Assumptions C07_source_escape.
